@@ -342,11 +342,11 @@ theorem wavPeakStart_shape (b : Bool) (ch : Nat) (peak : Option (List Peak)) (hp
     right
     have hl := hp ps rfl
     have hlen := peakChk_length b ch ps
-    refine ⟨u32 b 1 ++ (u32 b 1000000000 ++ ps.flatMap fun p => u32 b (Float.f64to32 p.value) ++ u32 b p.position), ?_, ?_⟩
+    refine ⟨u32 b 1 ++ (u32 b 1000000000 ++ ps.flatMap fun p => u32 b (wrF32 (Float.f64to32 p.value)) ++ u32 b p.position), ?_, ?_⟩
     · simp only [wavPeakStart, if_true, peakChk, List.append_assoc]
       have : (8 + 8 * (ch : Int)) = ((8 + 8 * ch : Nat) : Int) := by omega
       rw [this]
-    · have : (peakChk b ch ps).length = 4 + (4 + (u32 b 1 ++ (u32 b 1000000000 ++ ps.flatMap fun p => u32 b (Float.f64to32 p.value) ++ u32 b p.position)).length) := by
+    · have : (peakChk b ch ps).length = 4 + (4 + (u32 b 1 ++ (u32 b 1000000000 ++ ps.flatMap fun p => u32 b (wrF32 (Float.f64to32 p.value)) ++ u32 b p.position)).length) := by
         simp only [peakChk, List.append_assoc, List.length_append, u32_length_ct]; rfl
       omega
 
